@@ -74,6 +74,17 @@ def generate(tier, seed):
         for k in ks:
             cases.append("savecrash %s %s %d" % (enc_rules(old), enc_rules(new), k))
             dist["save_limits"] += 1
+    # faults and crashes at SYSTEM-CALL boundaries of the save (strace injection in a child process): the n-th call of
+    # each kind touching the policy file or its temporary sibling fails with EIO, or the process is killed entering it
+    dist["syscall_faults"] = 0
+    import shutil
+    if shutil.which("strace"):
+        for new in news[:2] if tier == "quick" else news:
+            for sc in ("openat", "write", "close", "rename", "unlink", "fsync", "ftruncate", "fcntl"):
+                for when in ((1, 2) if tier == "quick" else (1, 2, 3, 4)):
+                    for kind in ("err", "kill"):
+                        cases.append("savesys %s %s %s %d %s" % (enc_rules(old), enc_rules(new), sc, when, kind))
+                        dist["syscall_faults"] += 1
     return {
         "cases": cases,
         "exhaustive": False,
